@@ -16,15 +16,22 @@ def main(mods, only=None):
         discharge(obs)
         for o in obs:
             print(f"  lemma {o.name}: {o.status} {o.backend} {o.time:.2f}s")
+    done = set()
     for key, info in REGISTRY.contracts.items():
+        if id(info) in done:
+            continue
+        done.add(id(info))
         if only and info.qualname not in only:
+            continue
+        if info.opts.get("assumed"):
+            print(f"[ASSUMED] {info.name}")
             continue
         r = verify_function(info)
         if r.out_of_reach:
             print(f"[OUT-OF-REACH] {info.name}: {r.out_of_reach}")
             continue
         discharge(r.obligations)
-        bad = [o for o in r.obligations if o.status != "discharged"]
+        bad = [o for o in r.obligations if o.status != "discharged" and not (o.kind == "cover" and "requires" not in o.name and o.status == "refuted")]
         print(f"[{'OK' if not bad else 'FAIL'}] {info.name}: {len(r.obligations)} obligations, {r.paths} paths, gen {r.gen_time:.2f}s")
         for o in r.obligations:
             if o.status != "discharged" or "-v" in sys.argv:
